@@ -143,7 +143,7 @@ def check_krum(ctx: Ctx, dtype):
 
 def main(ctx: Ctx):
     ctx.lean_gate()
-    n = 400 if ctx.tier == "quick" else 12000
+    n = 400 if ctx.tier == "quick" else 80000
     for i in range(n):
         dtype = torch.float64 if i % 3 else torch.float32
         check_trimmed(ctx, dtype)
